@@ -886,3 +886,120 @@ def commute(t, ops=('+', '*', '==', '!=', '&&', '||'), calls=()):
             return ('call', x[1], (a, b))
         return None
     return subst(t, f)
+
+
+# ============================================================================================
+#  helper inlining, constant folding, constant-trip loop unrolling
+# ============================================================================================
+def map_terms(t, fn):
+    """post-order rewriting of every sub-term (also inside statement tuples): fn(term) -> term"""
+    if not isinstance(t, tuple) or not t:
+        return t
+    t2 = tuple(map_terms(x, fn) if isinstance(x, tuple) else x for x in t)
+    if isinstance(t2[0], str):
+        return fn(t2)
+    return t2
+
+
+def subst_params(t, args, this=None):
+    """replace ('p', i) by args[i] (simultaneously) and ('this',) by `this` in a term / statement tuple"""
+    def f(x):
+        if x[0] == 'p' and len(x) == 2 and isinstance(x[1], int) and x[1] < len(args):
+            return ('\x00arg', x[1])
+        if x == ('this',) and this is not None:
+            return ('\x00this',)
+        return x
+    marked = map_terms(t, f)
+
+    def g(x):
+        if x[0] == '\x00arg':
+            return args[x[1]]
+        if x[0] == '\x00this':
+            return this
+        return x
+    return map_terms(marked, g)
+
+
+def fold_consts(t):
+    """integer constant folding: arithmetic / bit / comparison operators on literals, `c ? a : b` with literal c"""
+    def f(x):
+        if x[0] == 'b' and x[2][0] == 'lit' and x[3][0] == 'lit' and not isinstance(x[2][1], bool) and not isinstance(x[3][1], bool):
+            a, b = x[2][1], x[3][1]
+            op = x[1]
+            try:
+                if op == '+':
+                    return ('lit', a + b)
+                if op == '-':
+                    return ('lit', a - b)
+                if op == '*':
+                    return ('lit', a * b)
+                if op in ('&', '|', '^', '<<', '>>') and a.denominator == 1 and b.denominator == 1:
+                    ia, ib = int(a), int(b)
+                    return ('lit', Fraction({'&': ia & ib, '|': ia | ib, '^': ia ^ ib, '<<': ia << ib, '>>': ia >> ib}[op]))
+                if op in ('<', '>', '<=', '>=', '==', '!='):
+                    return ('lit', {'<': a < b, '>': a > b, '<=': a <= b, '>=': a >= b, '==': a == b, '!=': a != b}[op])
+            except (ValueError, OverflowError):
+                return x
+        if x[0] == '?:' and x[1][0] == 'lit':
+            c = x[1][1]
+            return x[2] if (c if isinstance(c, bool) else c != 0) else x[3]
+        return x
+    return map_terms(t, f)
+
+
+def _assigns(t, var):
+    hit = []
+
+    def f(x):
+        if (x[0] == 'asg' and x[2] == var) or (x[0] == 'u' and x[1] in ('++', '--', 'post++', 'post--', '&') and x[2] == var):
+            hit.append(x)
+        return x
+    map_terms(t, f)
+    return bool(hit)
+
+
+def unroll(stmts, limit=64):
+    """replace every `for (v = c0; v < c1; ++v) body` whose bounds fold to constants and whose body never writes v by the
+    sequence of body instances (v replaced by its value, constants folded).  Other statements are kept."""
+    out = []
+    for st in stmts:
+        if st[0] == 'if':
+            out.append(('if', st[1], tuple(unroll(list(st[2]), limit)), tuple(unroll(list(st[3]), limit))))
+            continue
+        if st[0] != 'for':
+            out.append(st)
+            continue
+        ini, cond, inc, body = st[1], st[2], st[3], st[4]
+        ok = len(ini) == 1 and ini[0][0] == 'decl' and cond is not None and inc is not None
+        if ok:
+            var = ('v', ini[0][1])
+            start = fold_consts(strip_casts(ini[0][2]))
+            c = fold_consts(strip_casts(cond))
+            ok = (start[0] == 'lit' and c[0] == 'b' and c[1] in ('<', '<=', '!=') and c[2] == var and c[3][0] == 'lit'
+                  and inc in (('u', '++', var), ('u', 'post++', var), ('asg', '+=', var, ('lit', Fraction(1))))
+                  and not _assigns(body, var))
+        if not ok:
+            out.append(st)
+            continue
+        lo, hi = start[1], c[3][1]
+        if c[1] == '<=':
+            hi = hi + 1
+        if lo.denominator != 1 or hi.denominator != 1 or hi - lo > limit:
+            out.append(st)
+            continue
+        for k in range(int(lo), int(hi)):
+            inst = map_terms(tuple(body), lambda x, k=k: ('lit', Fraction(k)) if x == var else x)
+            out.extend(unroll([fold_consts(s) for s in inst], limit))
+    return out
+
+
+def calls_in(t):
+    """names of all ('call', name, ..) / ('mcall', name, ..) in a term / statement tuple"""
+    names = set()
+
+    def f(x):
+        if x[0] in ('call', 'mcall') and isinstance(x[1], str):
+            names.add(x[1])
+        return x
+    map_terms(t, f)
+    return names
